@@ -12,6 +12,7 @@ mod topo;
 mod closest;
 mod ray;
 mod rigid;
+mod section;
 
 pub struct State {
     pub slots: std::collections::HashMap<String, Box<dyn std::any::Any>>,
@@ -32,6 +33,7 @@ fn dispatch(rec: &Value, st: &mut State) -> Value {
         "closest" => closest::exec(rec, st),
         "ray" => ray::exec(rec, st),
         "rigid" => rigid::exec(rec, st),
+        "section" => section::exec(rec, st),
         _ => json!({"unknown_module": true}),
     }
 }
